@@ -70,6 +70,14 @@ func (in *Interp) binop(pos token.Pos, op token.Token, xt, yt types.Type, x, y V
 		unsupported("operation on poisoned value: %s", p.Why)
 	}
 	tb := in.tb
+	// code that peeks at the first byte of raw JSON text (json.RawMessage): the abstract text answers
+	// with the first byte its kind implies
+	if t, ok := x.(JSONTok); ok {
+		x = in.jsonFirstByte(t.V)
+	}
+	if t, ok := y.(JSONTok); ok {
+		y = in.jsonFirstByte(t.V)
+	}
 	switch op {
 	case token.EQL:
 		return in.equal(xt, x, y)
